@@ -136,7 +136,7 @@ class Builder:
                 c.barrier()
                 log.append(["barrier", None])
             else:
-                k = int(rng.integers(1, n + 1))
+                k = int(rng.integers(0, n + 1))          # k = 0: a barrier over no modes is constructible too
                 modes = sorted(rng.choice(n, size=k, replace=False).tolist())
                 self.last = ['barrier', modes, self.state(c)]
                 c.barrier(modes)
